@@ -613,6 +613,34 @@ namespace Dune
     return temp%y;
   }
 
+  // Mixed operations with a built-in *signed* integer.  Without these overloads a signed operand is converted
+  // silently to std::uintmax_t by the overloads above, so that x + (-1) is x + 2^64-1 (which is x-1 modulo 2^w only
+  // for widths up to 64 bits) although the constructor, the compound operators (x += -1) and the comparisons
+  // (x == -1) all reject negative values.  Route the operand through the checking constructor instead.
+#define DUNE_BIGUNSIGNEDINT_SIGNED_BINOP(OP)                                                                        \
+  template <int k, typename Signed,                                                                                 \
+            typename std::enable_if<std::is_integral<Signed>::value && std::is_signed<Signed>::value, int>::type = 0> \
+  inline bigunsignedint<k> operator OP (const bigunsignedint<k>& x, Signed y)                                       \
+  {                                                                                                                 \
+    bigunsignedint<k> temp(y);                                                                                      \
+    return x OP temp;                                                                                               \
+  }                                                                                                                 \
+  template <int k, typename Signed,                                                                                 \
+            typename std::enable_if<std::is_integral<Signed>::value && std::is_signed<Signed>::value, int>::type = 0> \
+  inline bigunsignedint<k> operator OP (Signed x, const bigunsignedint<k>& y)                                       \
+  {                                                                                                                 \
+    bigunsignedint<k> temp(x);                                                                                      \
+    return temp OP y;                                                                                               \
+  }
+
+  DUNE_BIGUNSIGNEDINT_SIGNED_BINOP(+)
+  DUNE_BIGUNSIGNEDINT_SIGNED_BINOP(-)
+  DUNE_BIGUNSIGNEDINT_SIGNED_BINOP(*)
+  DUNE_BIGUNSIGNEDINT_SIGNED_BINOP(/)
+  DUNE_BIGUNSIGNEDINT_SIGNED_BINOP(%)
+
+#undef DUNE_BIGUNSIGNEDINT_SIGNED_BINOP
+
   // Forward declare type-trait for numbers
   template<class T> struct IsNumber;
 
